@@ -1759,7 +1759,7 @@ def _dump_qcschema_output(f: TextIO, data: IOData) -> dict:
     output_dict["model"]["basis"] = data.obasis_name
     if "properties" not in data.extra["output"]:
         raise DumpError("qcschema_output requires `properties` field in extra['output'].", f)
-    output_dict["properties"] = data.extra["output"]["properties"]
+    output_dict["properties"] = dict(data.extra["output"]["properties"])
     if data.energy is not None:
         output_dict["properties"]["return_energy"] = data.energy
         if output_dict["driver"] == "energy":
